@@ -30,7 +30,7 @@ func tbState(tb *bitmap.TailBitmap) J {
 			}
 		}
 	}
-	st := J{"off": num(tb.Offset), "nw": len(tb.Words), "ones": ones}
+	st := J{"off": num(tb.Offset), "nw": len(tb.Words), "ones": ones, "rec": num(tbReclaimed(tb))}
 	if len(ones) > tbMaxOnes {
 		// No generated history stores that many 1-bits beyond Offset when words are compacted as
 		// specified; the projection is cut (and therefore rejected) instead of growing quadratically.
@@ -78,7 +78,7 @@ func execTB(in In, em *Emitter) {
 		if tb != nil {
 			ev["st"] = tbState(tb)
 		} else {
-			ev["st"] = J{"off": 0, "nw": 0, "ones": []int64{}}
+			ev["st"] = J{"off": 0, "nw": 0, "ones": []int64{}, "rec": 0}
 		}
 		em.Emit(k, ev)
 		em.Calls(1)
